@@ -5,7 +5,8 @@ package oracle
 // What the statement fixes and this oracle therefore demands, per planted handler (a mapping-annotated method
 // of a class annotated @RestController/@Controller): exactly one entry keyed by (package, class, method) with
 //   - HttpMethod = the verb named by Get/Post/Put/DeleteMapping or by @RequestMapping(method = RequestMethod.X)
-//   - Uri        = the class's OWN base path (empty without class-level mapping) followed by the method's path
+//   - Uri        = the class's OWN base path (empty without class-level mapping) followed by the method's path:
+//                  the plain concatenation of the two strings as written ("/a/" + "/x" = "/a//x", "/a/" + "x" = "/a/x")
 //   - RequestBodyClass = the type of the parameter annotated @RequestBody, "" if there is none
 // and no entry at all for anything else (non-handler methods, members of classes without controller annotation).
 //
@@ -243,6 +244,8 @@ func springUriClass(observed, own, path string, others []string) string {
 			return "own-base-lost"
 		case in(prefix):
 			return "base-of-another-class"
+		case strings.HasSuffix(own, "/") && len(own) > 1 && prefix == strings.TrimSuffix(own, "/"):
+			return "trailing-slash-of-own-base-lost"
 		case own != "" && strings.HasSuffix(prefix, own):
 			return "prefix-in-front-of-own-base"
 		}
